@@ -28,7 +28,7 @@ CHECKS["C06"] = dict(
 CHECKS["C07"] = dict(
    technique="reference-decoder monitor: Code 39 / Code 93 readers built from the symbologies' construction rules, run on every emitted symbol in every option mix",
    text="Exploration, exhaustive for lengths 0..2 over ASCII 0..127 in all 2x2x2 option mixes (length 3 over the 43-character alphabet in thorough) plus random texts up to 60 characters (weight wrap-around); check characters must be present exactly when requested and correct, full-ASCII shift pairs must resolve to the text.",
-   note="trusted: construction-rule tables in refdec/onedim.go; don't-care: FNC placeholder runes in basic-mode Code 93 content",
+   note="trusted: construction-rule tables in refdec/onedim.go; the four Code 93 special characters (exported as FNC1..FNC4) are part of the basic-mode domain",
    ref="C07")
 CHECKS["C08"] = dict(
    technique="reference-decoder monitor: narrow/wide readers for Codabar, standard and interleaved 2 of 5; arithmetic oracle for AddCheckSum",
@@ -37,7 +37,7 @@ CHECKS["C08"] = dict(
    ref="C08")
 CHECKS["C09"] = dict(
    technique="reference-model monitor: executable pixel model of Scale evaluated on the source's own pixel grid; every pixel of every result compared",
-   text="Exploration: sources from all eleven families under several colour schemes, full (w,h) windows for small symbols and boundary grids for large ones, eight fill colours over five colour models, chains of up to three scalings; acceptance rule, bounds, centring within one pixel, block replication, fill, Content/Metadata/CheckSum pass-through.",
+   text="Exploration: sources from all eleven families under several colour schemes, full (w,h) windows for small symbols and boundary grids for large ones, eight fill colours over five colour models, chains of up to three scalings, and enormous requests (2^31 … MaxInt in one or both dimensions, compared on a sample of coordinates: edges, both sides of module boundaries, module centres, a fixed scatter); acceptance rule, bounds, centring within one pixel, block replication, fill, Content/Metadata/CheckSum pass-through.",
    note="trusted: the model in props/c09.go (factor = largest integer that fits; offset floor or ceil of the exact centre)",
    ref="C09")
 CHECKS["C14"] = dict(
@@ -67,7 +67,7 @@ CHECKS["C04"] = dict(
    ref="C04")
 CHECKS["C10"] = dict(
    technique="acceptance-oracle monitor: independent three-region predicate (must-accept / must-reject / don't-care) evaluated next to every call of all 22 Encode* entry points and AddCheckSum, with panic capture, child-process crash diagnosis (write-ahead log) and CPU-time based hang detection",
-   text="Exploration: boundary-directed inputs (QR version-40 capacity per level x mode from both sides, DataMatrix 1558 codewords per class, Code 128 80 runes, PDF417 totals around 900/928 per level, Aztec forced-binary payloads around every size's capacity) and hostile inputs (every byte value, invalid UTF-8, multi-byte runes, signs/spaces, FNC runes, integer extremes incl. MinInt/MaxInt layers and percentages, all 256 PDF417 level bytes).",
+   text="Exploration: boundary-directed inputs (QR version-40 capacity per level x mode from both sides, DataMatrix 1558 codewords per class, Code 128 80 runes, PDF417 totals around 900/928 per level, Aztec forced-binary payloads around every size's capacity and eight kinds of text — prose, records, Punct pairs … — at the longest length a valid reference encoding still fits) and hostile inputs (every byte value, invalid UTF-8, multi-byte runes, signs/spaces, FNC runes, integer extremes incl. MinInt/MaxInt layers and percentages, all 256 PDF417 level bytes, nil slices, numbers in printed forms with separators/prefixes, structured payloads); a rejected call must return a nil interface (no typed nil) and its error must keep its text.",
    note="trusted: the acceptance predicates in props/c10.go; don't-care regions listed in the evidence assumptions",
    ref="C10")
 CHECKS["C11"] = dict(
@@ -92,7 +92,7 @@ CHECKS["C15"] = dict(
    ref="C15")
 CHECKS["C16"] = dict(
    technique="Go race detector over repeated cold-start concurrent workloads in fresh processes + digest comparison against a sequential baseline + state-based goroutine-leak verdict + cache-invariant hook (separate sink-on pass)",
-   text="Exploration of schedules: per run 24 (quick) / 300 (thorough) fresh -race processes over the grid goroutines {2..64} x GOMAXPROCS {1..16}, each with a cold-start focus (RS-degree climb, Aztec 8/10/12-bit, PDF417, big DataMatrix/QR, 1D), plus 48 / 400 'micro' processes of cheap cold starts per 1D/small package and free-running streams of large Aztec symbols; the concurrent calls are the first library calls in each process (pre-barrier objects avoid the focus package); shared barcodes, a shared scaled 2D barcode and shared RS encoders are read/used by all goroutines; any race report, digest difference from the sequential baseline, panic, deadlock (all goroutines blocked, confirmed by dump) or blocked library goroutine after quiescence is a violation.",
+   text="Exploration of schedules: per run 24 (quick) / 300 (thorough) fresh -race processes over the grid goroutines {2..64} x GOMAXPROCS {1..16}, each with a cold-start focus (RS-degree climb, Aztec 8/10/12-bit, PDF417, big DataMatrix/QR, 1D), plus 48 / 400 'micro' processes of cheap cold starts per 1D/small package and free-running streams of large Aztec symbols; the concurrent calls are the first library calls in each process (pre-barrier objects avoid the focus package); shared barcodes, barcodes on which nothing was called before the barrier, a shared scaled 2D barcode and shared RS encoders are read/used by all goroutines; rejected requests of every family run concurrently and their errors are re-read; any race report, digest difference from the sequential baseline, panic, deadlock (all goroutines blocked, confirmed by dump) or blocked library goroutine after quiescence is a violation.",
    note="the race detector sees only executed code; schedules are sampled; monitor adds no synchronisation in race-deciding runs",
    ref="C16")
 PENDING = {}
